@@ -31,6 +31,9 @@ func (w *zzClient) Header() http.Header {
 	return w.hdr
 }
 func (w *zzClient) WriteHeader(c int) {
+	if c >= 100 && c < 200 && c != 101 {
+		return // an informational header (103 Early Hints): the final status is still to come
+	}
 	w.commits++
 	if w.status == 0 {
 		w.status = c
@@ -61,6 +64,9 @@ func (zzInner) ServeHTTP(w http.ResponseWriter, r *http.Request) (int, error) {
 		r.URL.Path = []string{"/a/a", "/zz"}[verifrt.Choose("rewritten", 2)]
 	}
 	if verifrt.Bool("writes") {
+		if verifrt.Bool("early-hints") {
+			w.WriteHeader(103) // informational, before the final status (explicit or implied by the first write)
+		}
 		if verifrt.Bool("explicit-status") {
 			w.WriteHeader([]int{200, 204, 404, 500}[verifrt.Choose("status", 4)])
 		}
